@@ -149,12 +149,13 @@ def composed(chk, fs):
     short = [v for t, v in r.prints if t == "BEHAVIOUR"]
     rng = random.Random(chk.seed)
     behaviours = rng.sample(short, min(len(short), 300 if chk.quick else 20000))
-    for cfg in ("Sim_Initiator_on.cfg", "Sim_Initiator_off.cfg"):
+    for cfg in ("Sim_Initiator_on.cfg", "Sim_Initiator_off.cfg", "Sim_Initiator_iscsi.cfg"):
         rs = tlc.run("Initiator", cfg, workers=1, timeout=600, name="c12sim", simulate="num=%d" % (60 if chk.quick else 5000),
                      extra=["-depth", "30", "-seed", str(chk.seed + 11)])
         if rs.violated:
             raise tlc.TLCFailure("Initiator.tla (simulation) violated %s" % rs.violated)
         behaviours += [v for t, v in rs.prints if t == "BEHAVIOUR"]
+    fi_ = __import__("harness.fakes.iscsi", fromlist=["x"])
     d = bindings.shm_dir("c12i")
     path = os.path.join(d, "sg0")
     sd = mod("pyscsi.pyscsi.scsi_device")
@@ -184,7 +185,11 @@ def composed(chk, fs):
                     return (2, sense) if f == "cc" else (8, None)
                 return live(cdb, dataout, datain)
             fs.reset(target)
-            dev = sd.SCSIDevice(path, readwrite=True, detect_replugged=bool(b["detect"]))
+            fi_.reset(target)
+            if b.get("tr") == "iscsi":
+                dev = mod("pyscsi.pyiscsi.iscsi_device").ISCSIDevice("iscsi://h/iqn.t/0", "iqn.i")
+            else:
+                dev = sd.SCSIDevice(path, readwrite=True, detect_replugged=bool(b["detect"]))
             facade = SCSI(dev, 1)
             for i, s_ in enumerate(b["steps"]):
                 a = s_["act"]
@@ -211,7 +216,7 @@ def composed(chk, fs):
                 steps += 1
                 if out != s_["out"] or (a == "read" and out == "ok" and data != s_["data"]):
                     chk.violation({"clause": "ComposedBehaviour", "cls": "", "field": "", "method": a, "tr": "sgio",
-                                   "detail": {"step": i, "expected": s_, "observed": {"out": out, "data": data},
+                                   "detail": {"step": i, "expected": s_, "observed": {"out": out, "data": data}, "transport": b.get("tr"),
                                               "behaviour": b["steps"][:i + 1], "detect": b["detect"]},
                                    "what": "Initiator.tla behaviour replayed"}, dedup=("Composed", a, s_["out"], out))
                     break
